@@ -7,7 +7,10 @@ CONSTANTS
   MaxLen = 1
   Fates = {"ok", "fatal"}
   MaxFail = 1
-  WorldTx = TRUE
+  WorldTx = {"W"}
+  EnsureTx = FALSE
+  ImplWR = "required"
+  CancelOn = FALSE
   RetryCount = 2
   MaxOps = 0
 VIEW ViewNoHist
